@@ -298,12 +298,13 @@ func init() {
 	})
 	// ------------------------------------------------------------------ C18
 	register(&Prop{
-		ID: "C18", Level: "proof", Technique: "static effect analysis: write-once package state (R-GLOBAL) with sync.Once dominance, read-only shared arguments (R-RO), no escaping package state (R-FRESH), structural absence of goroutines/channels",
+		ID: "C18", Level: "proof", Technique: "static effect analysis: write-once package state (R-GLOBAL) with sync.Once dominance, no package state exported to importers (R-EXPORT), read-only shared arguments (R-RO), no escaping package state (R-FRESH), structural absence of goroutines/channels",
 		Explanation: "Race freedom by effect discipline: package-level variables are written only by the package initialisers; the two lazily built tables are written only inside the function literal of their own sync.Once and every other access is dominated by the Do call (or by a call of the accessor that always runs it); exported functions write only their receiver; no exported function returns package state. With no write to any location shared between two calls other than under sync.Once, concurrent calls on disjoint receivers have no conflicting access and compute what they compute sequentially.",
 		Assumptions: []string{"sync.Once: completion of f happens-before every Do return (Go memory model)"},
 		TrustedBase: append([]string{"sync.Once"}, trustedCommon...),
-		Floors:      []report.Floor{{Rule: "R-GLOBAL", Min: 156}, {Rule: "R-RO", Min: 66}},
+		Floors:      []report.Floor{{Rule: "R-GLOBAL", Min: 156}, {Rule: "R-RO", Min: 66}, {Rule: "R-EXPORT", Min: 20}},
 		Build: func(c *Ctx) {
+			c.ruleBuildConstraints() // premise: no source file hides behind a build tag none of the analysed configurations sets
 			for _, cfg := range c.Configs() {
 				a := c.Eff(cfg)
 				if a == nil {
@@ -318,12 +319,13 @@ func init() {
 	})
 	// ------------------------------------------------------------------ C19
 	register(&Prop{
-		ID: "C19", Level: "proof", Technique: "static effect analysis: return provenance (R-FRESH), write-once package state (R-GLOBAL), receivers defined before read (R-INIT), no effect on arguments (R-RO)",
+		ID: "C19", Level: "proof", Technique: "static effect analysis: return provenance (R-FRESH), write-once package state that no importer can reach (R-GLOBAL, R-EXPORT), receivers defined before read (R-INIT), no effect on arguments (R-RO)",
 		Explanation: "Every pointer/slice result of every exported function is a fresh object, the receiver itself, or nil — never a package-level variable, a table, an interior pointer or a shared buffer; no call changes package state after initialisation, so no history is remembered; no result depends on a receiver's prior content; no call writes its arguments (so repeating a call repeats its result).",
 		TrustedBase: trustedCommon,
 		Exceptions:  []report.Exception{swapInit, swapExceptions[1], swapRecvRO},
-		Floors:      []report.Floor{{Rule: "R-FRESH", Min: 54}, {Rule: "R-GLOBAL", Min: 156}, {Rule: "R-INIT", Min: 36}},
+		Floors:      []report.Floor{{Rule: "R-FRESH", Min: 54}, {Rule: "R-GLOBAL", Min: 156}, {Rule: "R-INIT", Min: 36}, {Rule: "R-EXPORT", Min: 20}},
 		Build: func(c *Ctx) {
+			c.ruleBuildConstraints() // premise: no source file hides behind a build tag none of the analysed configurations sets
 			for _, cfg := range c.Configs() {
 				a := c.Eff(cfg)
 				if a == nil {
